@@ -131,13 +131,14 @@ def report(pid, tier, seed, modname, obs, results, bres, meta, t0):
             gaps.append((r['name'], r.get('gaps')))
         if r['status'] == 'gap':
             fb = r.get('gap_fallback') or {}
-            if fb.get('tried', 0) >= 50 and not fb.get('failed'):
+            if fb.get('tried', 0) >= 50 and not fb.get('failed') and not fb.get('inconclusive'):
                 # the model cannot express the (changed) code; the concrete twin of the same contract held on every sampled input of
                 # the real code: recorded as a bounded fallback (not discharged, not an alarm)
                 bounded_fallbacks.append(dict(obligation=r['name'], gap='; '.join(r.get('gaps') or [])[:300], concrete_twin_runs=fb['tried']))
                 print(f"ENGINE-GAP {r['name']}: bounded fallback ({fb['tried']} runs of the concrete twin on the real code passed): " + '; '.join(r.get('gaps') or [])[:200])
             else:
-                undecided.append((r['name'], 'engine gap: ' + '; '.join(r.get('gaps') or [])[:300]))
+                undecided.append((r['name'], 'engine gap: ' + '; '.join(r.get('gaps') or [])[:300] +
+                                  (f" (concrete twin inconclusive at non-generic inputs: {fb.get('inconclusive')})" if fb.get('inconclusive') else '')))
             continue
         if r['status'] == 'undecided' and not verd:
             undecided.append((r['name'], r.get('why', 'undecided')))
@@ -170,6 +171,8 @@ def report(pid, tier, seed, modname, obs, results, bres, meta, t0):
         bounded_out.append({k: v for k, v in b.items() if k not in ('failures',)} | dict(n_failures=len(b.get('failures', []))))
         if b['status'] == 'crash':
             crashes.append((b['name'], b.get('why', '')[:1500]))
+        if b.get('inconclusive'):
+            undecided.append((b['name'], 'bounded stand-in not applicable to this source: ' + str(b['inconclusive'])[:300]))
         for fl in b.get('failures', []):
             sig = fl.get('signature', '')
             hit = match_finding(kf, b['name'], fl.get('clause', 'bounded'), fl)
